@@ -104,14 +104,6 @@ def dyn_bind(mode, root, target):
     return ("static", target) if mode == "auto" else ("errscope",)
 
 
-def is_suffix_pair(a, b):
-    """trigger of defect suffix_root: one idstr is a proper suffix (by components) of the other"""
-    if len(a) == len(b):
-        return False
-    s, l = (a, b) if len(a) < len(b) else (b, a)
-    return tuple(l[len(l) - len(s):]) == tuple(s)
-
-
 # ---------------------------------------------------------------- the mirror state
 class Mirror:
     def __init__(self):
@@ -169,12 +161,19 @@ class Mirror:
                 for base in tbl[sp]:
                     if (base, n) in self.defs:
                         m, t = self.defs[(base, n)]
-                        if notes is not None and m != "absolute" and is_suffix_pair(sp, base):
-                            notes.add("suffix_root")
+                        # suffix_root is repaired in /repo: derivation between spaces one of whose dotted names is a
+                        # suffix of the other's (X.C from top-level C, top-level C from A.C) is generated
                         b = on_inherit(inmro, m, sp, base, t)
                         break
                 out[(sp, n)] = b
         return out
+
+    def dangling(self, tbl=None, B=None):
+        """the bindings whose corresponding object does not exist: its existence is a precondition of the
+        model (a null object in the library), checked per binding"""
+        tbl = tbl if tbl is not None else self.table()
+        B = B if B is not None else self.bindings(tbl)
+        return {k: b for k, b in B.items() if b[0] in ("Def", "Der") and not self.exists(tbl, b[2])}
 
     def first_definer(self, tbl, sp, n):
         for base in tbl[sp]:
@@ -263,31 +262,31 @@ def apply(st, op):
     if not accepted:
         if k == "space":
             pass                                    # new_space rolls back
-        elif k == "setref" and not existing:
-            pass                                    # _check_subs_relrefs refuses before anything is changed
         elif k == "setref":
-            trig.add("relative_change_unchecked")
+            pass                                    # _check_subs_relrefs refuses before anything is changed
+            # (relative_change_unchecked is repaired in /repo: refused re-assignments of an existing reference are generated too)
         else:
             trig.add("no_rollback")                 # add_bases fails half-way when a relative reference cannot be derived (C11 domain)
         return st, False, trig, None, tbl1
     # ---- accepted: which recorded defects would make the library deviate?
+    # dangling_target_overwrite (new_ref / change_ref passed the null object of one sub space on to the next ones) is
+    # repaired in /repo: states in which the corresponding object of a binding does not exist are generated (such a
+    # binding is a null object: see Mirror.dangling).  What stays recorded as dangling_target: a binding whose
+    # corresponding object is created LATER is not re-bound
     for (s2, n2), b in B1.items():
-        if b[0] in ("Def", "Der") and not new.exists(tbl1, b[2]):
-            trig.add("dangling_target")
+        if b[0] not in ("Def", "Der"):
+            continue
+        same = B0.get((s2, n2)) == b
+        if new.exists(tbl1, b[2]):
+            if same and not st.exists(tbl0, b[2]):
+                trig.add("dangling_target")         # created later: not re-bound
+        elif not (b[0] == "Der" and b[3]) or (same and st.exists(tbl0, b[2])):
+            # not a missing CORRESPONDING object: the original object itself is gone (remove_bases deletes the derived
+            # cells a reference denotes).  Precondition: references to deleted objects are not C10's subject
+            trig.add("target_deleted")
     # change_ref_is_relative is repaired in /repo: re-assigning a base reference is generated
-    if k in ("addb", "rmb", "space"):
-        p = tuple(op[1])
-        real = {p} | {s for s in new.bases if p in tbl1.get(s, ()) or p in tbl0.get(s, ())}
-        for (s2, n2), b in B1.items():
-            if s2 not in real and B0.get((s2, n2), ("NoRef",)) != b:
-                trig.add("stale_outer_root")
-    if k in ("addb", "rmb", "delref"):
-        for (s2, n2), b in B1.items():
-            b0 = B0.get((s2, n2), ("NoRef",))
-            if b0[0] == "Der" and b[0] == "Der" and st.first_definer(tbl0, s2, n2) != new.first_definer(tbl1, s2, n2):
-                d0, d1 = st.first_definer(tbl0, s2, n2), new.first_definer(tbl1, s2, n2)
-                if st.defs[(d0, n2)][0] != new.defs[(d1, n2)][0]:
-                    trig.add("stale_mode")
+    # stale_outer_root is repaired in /repo: base changes that re-root the references of nested spaces are generated
+    # stale_mode is repaired in /repo: a change of the defining reference with another mode is generated
     return new, True, trig, None, tbl1
 
 
@@ -306,13 +305,18 @@ def dyn_expect(st, root):
             if b[0] not in ("Def", "Der"):
                 continue
             m, t = b[1], b[2]
+            if not st.exists(tbl, t):
+                # no corresponding object: the reference is a null object, and a null Cells in the namespace makes every
+                # formula of the space raise DeletedObjectError: ItemSpaces are observed when all bindings of the tree exist
+                trig.add("dangling_target")
+                continue
             e = dyn_bind(m, root, t)
             ts = ".".join(t)
             rel = (m != "absolute") if b[0] == "Def" else b[3]
             # D15 (raw string prefix test, e.g. root "S" / target "S2.foo") is fixed in /repo (320be27):
             # such cases are generated and must follow the component-wise rule
-            if b[0] == "Der" and m == "auto" and not b[3] and is_prefix(root, t):
-                trig.add("dyn_derived_nonrelative")
+            # dyn_derived_nonrelative is repaired in /repo: derived auto references that are not relative to their
+            # definer but point into the ItemSpace's base tree are generated
             # dyn_direct_bases is repaired in /repo: generated
             if e[0] == "errscope":
                 scope_err = True
